@@ -369,7 +369,7 @@ def generate(rng):
             prefix.append(g.mutation("batch"))
         present = g.batch_present
         on = "batch"
-    return {"cfg": {"prune": prune, "cache": cache}, "prefix": prefix, "pool": pool, "probes": probes, "values": values, "present": dict(present), "on": on}
+    return {"cfg": {"prune": prune, "cache": cache, "store": rng.choice(["min", "min", "dict"])}, "prefix": prefix, "pool": pool, "probes": probes, "values": values, "present": dict(present), "on": on}
 
 
 def subsets(rng, live, n):
